@@ -29,6 +29,11 @@ EVIDENCE_DIR = os.path.join(ROOT, "evidence")
 REPLAY_DIR = os.path.join(ROOT, "replays")
 KNOWN_FILE = os.path.join(ROOT, "known_findings.json")
 
+if os.environ.get("VERIF_DUMP"):
+    import faulthandler
+
+    faulthandler.dump_traceback_later(int(os.environ["VERIF_DUMP"]), repeat=False)
+
 TIER = os.environ.get("VERIF_TIER", "quick")
 SEED = int(os.environ.get("VERIF_SEED", "0") or 0)
 NPROC = int(os.environ.get("VERIF_NPROC", "16"))
@@ -410,12 +415,18 @@ def run_jobs(fn, cfgs, nproc=None):
     ctx = mp.get_context("fork")
     out = []
     prog = os.environ.get("VERIF_PROGRESS")
-    with ctx.Pool(min(nproc, len(cfgs)), maxtasksperchild=8, initializer=smt.die_with_parent) as pool:
+    # no maxtasksperchild and close()+join() instead of terminate(): Pool.terminate() can deadlock on the task
+    # queue lock when workers are being recycled (observed with 200+ short jobs)
+    pool = ctx.Pool(min(nproc, len(cfgs)), initializer=smt.die_with_parent)
+    try:
         for jr in pool.imap_unordered(_run_job, [(fn, c) for c in cfgs], chunksize=1):
             out.append(jr)
             if prog:
                 sys.stderr.write("[%d/%d] %.0fs %s inconclusive=%d violations=%d\n" % (len(out), len(cfgs), jr.get("job_s", 0), json.dumps(jr.get("cfg"))[:150], len(jr.get("inconclusive", [])), len(jr.get("violations", []))))
                 sys.stderr.flush()
+    finally:
+        pool.close()
+        pool.join()
     return out
 
 
